@@ -70,6 +70,15 @@ class HSocket:
         self.sent.append(b[:k])
         return k
 
+    def shutdown(self, how):
+        # a socket whose connection was reset or never established is no longer connected: ENOTCONN (Linux); after an orderly
+        # FIN from the peer it still is (CLOSE_WAIT) and shutdown succeeds
+        if self.closed:
+            raise OSError(9, "Bad file descriptor")
+        if self.recv_error or getattr(self, "connect_result", 0) not in (0, 115) or any(isinstance(x, str) for x in self.send_plan):
+            raise OSError(107, "Transport endpoint is not connected")
+        self.shut = True
+
     def close(self):
         self.closed = True
 
